@@ -18,19 +18,13 @@ Ltac refute src :=
     let r := fresh in let E := fresh in let H := fresh in
     intros r E H; first [discriminate E | (injection E as <-; vm_compute in H; discriminate)] ].
 
-(* f"{a :>{w}}" : only the first component of a format spec is printed *)
-Lemma spec_rest_dropped : exists m, readable W_plain m /\ ~ repr_roundtrips W_plain m.
-Proof. refute "f""{a :>{w}}"""%string. Qed.
 
-(* #[[ newline newline x ]] : the newline that the reader drops after the opening bracket is not printed *)
-Lemma bracket_leading_newline : exists m, readable W_plain m /\ ~ repr_roundtrips W_plain m.
-Proof. refute "#[[
 
-x]]"%string. Qed.
 
-(* f"{ {a b}}" : a field whose form is a dict is printed with two braces in a row *)
-Lemma field_form_brace : exists m, readable W_plain m /\ ~ repr_roundtrips W_plain m.
-Proof. refute "f""{ {a b}}"""%string. Qed.
+(* f"{x :a{y = }}" : two String components side by side in a format spec (the second is the text kept for the
+   debugging =) are printed as one run of text *)
+Lemma spec_adjacent_strings : exists m, readable W_plain m /\ ~ repr_roundtrips W_plain m.
+Proof. refute "f""{x :a{y = }}"""%string. Qed.
 
 (* (. a ... b) : printed as a dotted identifier that is not one *)
 Lemma dotted_form_parts : exists m, readable W_plain m /\ ~ repr_roundtrips W_plain m.
@@ -90,16 +84,42 @@ Definition m_fexample : model :=
   MNode (KFStr None false)
         [MStr [97] None; MNode (KFComp (Some 114) false) [MSym [120]; MNode (KFComp None false) [MSym [119]]]].
 
+Lemma sym1 W c : num W [c] = NotNum -> ident_char c = true -> dispatch c = DDefault -> c <> ch_dot -> sym_ok W [c].
+Proof.
+  intros Hn Hi Hd Hne. split; [split; [cbn [forallb]; rewrite Hi; reflexivity|exact Hd]|].
+  split; [exact Hn|left]. unfold mem. cbn [existsb]. rewrite orb_false_r. apply N.eqb_neq. congruence.
+Qed.
+
 Lemma example_fstr_ok W : num W [120] = NotNum -> num W [119] = NotNum -> ok W m_fexample.
 Proof.
-  intros Hx Hw.
-  assert (S1 : forall c, num W [c] = NotNum -> ident_char c = true -> dispatch c = DDefault -> c <> ch_dot -> sym_ok W [c]).
-  { intros c Hn Hi Hd Hne. split; [split; [cbn [forallb]; rewrite Hi; reflexivity|exact Hd]|].
-    split; [exact Hn|left]. unfold mem. cbn [existsb]. rewrite orb_false_r. apply N.eqb_neq. congruence. }
-  unfold m_fexample. apply OkFStr.
+  intros Hx Hw. unfold m_fexample. apply OkFStr.
   - apply Forall_cons; [apply FcStr; [discriminate|repeat constructor|reflexivity]|].
     apply Forall_cons; [|constructor].
-    apply FcField; [apply OkSym, S1; try assumption; try reflexivity; discriminate|reflexivity|].
-    apply SpField. apply FcField; [apply OkSym, S1; try assumption; try reflexivity; discriminate|reflexivity|apply SpNone].
+    apply FcField; [apply OkSym, sym1; try assumption; try reflexivity; discriminate|].
+    apply SpField; [|apply SpNil].
+    apply FcField; [apply OkSym, sym1; try assumption; try reflexivity; discriminate|apply SpNil].
   - cbn [fseq_ok]. split; [reflexivity|exact I].
+Qed.
+
+(* The former failing inputs, now inside the fragment of the round-trip theorem:
+   the bracket string  #[[ NL NL x]]  (content starts with a newline) ... *)
+Definition m_bracket_nl : model := MStr [c_nl; 120] (Some []).
+Lemma bracket_nl_ok W : ok W m_bracket_nl.
+Proof. apply OkBracket. repeat split; reflexivity. Qed.
+
+(* ... and  f"{ {a b} :>{w}<}"  (the form of the field is a dict; the format spec has three components) *)
+Definition m_dict_spec : model :=
+  MNode (KFStr None false)
+        [MNode (KFComp None false)
+               [MNode KDict [MSym [97]; MSym [98]]; MStr [62] None; MNode (KFComp None false) [MSym [119]]; MStr [60] None]].
+
+Lemma dict_spec_ok W : num W [97] = NotNum -> num W [98] = NotNum -> num W [119] = NotNum -> ok W m_dict_spec.
+Proof.
+  intros Ha Hb Hw. unfold m_dict_spec. apply OkFStr; [|exact I].
+  apply Forall_cons; [|constructor]. apply FcField.
+  - apply OkDict. apply Forall_cons; [apply OkSym, sym1; try assumption; try reflexivity; discriminate|].
+    apply Forall_cons; [apply OkSym, sym1; try assumption; try reflexivity; discriminate|constructor].
+  - apply SpStr; [discriminate|reflexivity| |exact I].
+    apply SpField; [apply FcField; [apply OkSym, sym1; try assumption; try reflexivity; discriminate|apply SpNil]|].
+    apply SpStr; [discriminate|reflexivity|apply SpNil|exact I].
 Qed.
